@@ -807,6 +807,7 @@ def hostile_session(seed):
 def listener_session(seed):
     """C06/C07/C08: many addresses, rotations, delays, corruptions; expectations are tagged by construction"""
     rng = random.Random(seed)
+    rng2 = random.Random(seed * 2654435761 % (1 << 32) + 17)   # for ops added later: leaves the established streams as they were
     s = Session(rng)
     s.op("reset")
     magic = rng.choice([(0, 0), (0, 0), (3, 5), (8, 0xA5), (32, 0xDEADBEEF)])
@@ -915,6 +916,21 @@ def listener_session(seed):
                 s.op("lcraft 10 %s %d 0 -1 %d %d %d -1 -1 -1 %d" % (addr, c, rng.choice([0, 1, 2, 3, 4, 5, 6, 255]), rng.choice([0, 1, 2, 3, 4, 200]), rng.randint(0, 255), rng.randint(0, 31)))
         s.note("hostile")
         hostile_ops(s, rng, [c], [c, 10], listener=(10, addr), n=rng.randint(0, 3), magic_bits=magic[0])
+        if rng2.random() < 0.5:
+            # a datagram in the CURRENT field layout that advertises another handshake version (older, newer, absurd): whatever the listener
+            # makes of it, it must not change how later datagrams are read (the version variables are not per-listener state: a twin cannot see this,
+            # the comparison with the model does)
+            # ... asked before and after, with the same clock and random state, the same bare initial packet must get the same answer
+            qa, qb = rng2.randint(1, 1 << 30), rng2.randint(1, 1 << 30)
+            who2 = rng2.choice([addr, "7.7.7.7:7"])
+            s.op("seed %d %d" % (qa, qb))
+            s.note("twin-a")
+            s.op("ldlv 10 %s %d -1" % (who2, c))
+            s.note("expect any")
+            s.op("lcraft 10 %s %d 0 -1 -1 %d -1 -1 -1 -1 -1" % (rng2.choice([addr, "6.6.6.6:6"]), c, 300 + rng2.choice([0, 1, 2, 2, 3, 4, 255])))
+            s.op("seed %d %d" % (qa, qb))
+            s.note("twin-b")
+            s.op("ldlv 10 %s %d -1" % (who2, c))
         # the twin is asked the same question with the same clock and random state: the answers must be identical
         for _ in range(rng.randint(1, 3)):
             pa, pb = rng.randint(1, 1 << 30), rng.randint(1, 1 << 30)
